@@ -36,9 +36,9 @@ def thresholdIdx (r : List Nat) (xs ys : List K) [Inhabited K] : List Nat :=
 /-- `fit`: returns `(X_thresholds_, y_thresholds_)` -/
 def isoFit [Inhabited K] (fn : Option Functional) (α : K) (inc : Bool) (X y : List K)
     (w : Option (List K)) : Except Err (List K × List K) := do
-  if X.length ≠ y.length then throw Err.other            -- polars ShapeError
+  if X.length ≠ y.length then throw Err.valueError      -- `validate_same_first_dimension`
   match w with
-  | some w' => if w'.length ≠ y.length then throw Err.other else pure ()
+  | some w' => if w'.length ≠ y.length then throw Err.valueError else pure ()
   | none => pure ()
   let ws := match w with
     | some w' => w'
